@@ -155,7 +155,7 @@ func (c *Ctx) collectVDT(p *packages.Package) []*vdtTables {
 
 // spec tables: type name suffix -> index (only the consensus-critical enums)
 var vdtSpec = map[string]map[string]int64{
-	"dot/types.DigestItem":             {"PreRuntimeDigest": 6, "ConsensusDigest": 4, "SealDigest": 5, "RuntimeEnvironmentUpdated": 8},
+	"dot/types.DigestItem":             {"Other(opaque bytes)": 0, "PreRuntimeDigest": 6, "ConsensusDigest": 4, "SealDigest": 5, "RuntimeEnvironmentUpdated": 8},
 	"dot/types.BabeDigest":             {"BabePrimaryPreDigest": 1, "BabeSecondaryPlainPreDigest": 2, "BabeSecondaryVRFPreDigest": 3},
 	"dot/types.BabeConsensusDigest":    {"NextEpochData": 1, "BABEOnDisabled": 2, "VersionedNextConfigData": 3},
 	"dot/types.GrandpaConsensusDigest": {"GrandpaScheduledChange": 1, "GrandpaForcedChange": 2, "GrandpaOnDisabled": 3, "GrandpaPause": 4, "GrandpaResume": 5},
@@ -205,21 +205,30 @@ func (c *Ctx) ruleVDT(rule string, withSpec bool, dirs ...string) {
 			sort.Strings(probs)
 			c.ob(rule, key+":tables-agree", t.pos, len(probs) == 0, fmt.Sprintf("%d variants; %s", len(t.index), strings.Join(probs, "; ")))
 			if spec, ok := vdtSpec[key]; ok && withSpec {
-				var sp []string
-				for ty, idx := range spec {
-					if got, ok := t.index[ty]; !ok {
-						sp = append(sp, fmt.Sprintf("spec variant %s (index %d) missing", ty, idx))
-					} else if got != idx {
-						sp = append(sp, fmt.Sprintf("%s has index %d, spec %d", ty, got, idx))
-					}
+				var names []string
+				for ty := range spec {
+					names = append(names, ty)
 				}
+				sort.Strings(names)
+				for _, ty := range names {
+					idx := spec[ty]
+					got, present := t.index[ty]
+					msg := fmt.Sprintf("spec variant %s has index %d", ty, idx)
+					if !present {
+						msg = fmt.Sprintf("spec variant %s (index %d) is missing: such a value cannot be encoded or decoded", ty, idx)
+					} else if got != idx {
+						msg = fmt.Sprintf("%s has index %d, specification %d", ty, got, idx)
+					}
+					c.ob(rule+"/spec", key+":"+strings.ReplaceAll(ty, " ", ""), t.pos, present && got == idx, msg)
+				}
+				var extra []string
 				for ty, idx := range t.index {
 					if _, ok := spec[ty]; !ok {
-						sp = append(sp, fmt.Sprintf("variant %s (index %d) not in the spec table", ty, idx))
+						extra = append(extra, fmt.Sprintf("%s=%d", ty, idx))
 					}
 				}
-				sort.Strings(sp)
-				c.ob(rule+"/spec", key+":spec-table", t.pos, len(sp) == 0, strings.Join(sp, "; "))
+				sort.Strings(extra)
+				c.ob(rule+"/spec", key+":no-extra-variants", t.pos, len(extra) == 0, "variants not in the specification table: "+strings.Join(extra, ", "))
 			}
 		}
 	}
